@@ -705,8 +705,44 @@ def run_state(case):
     os.makedirs(root)
     require(checkpoint.load_latest_checkpoint(root) is None,
             'checkpoint:loaded_from_empty_dir')
+    model = {}   # round -> state spec of the checkpoints that must be on disk
     for s in saves:
+      if s.get('fail'):
+        # A save that dies half-way through pickling (a leaf that cannot be
+        # pickled, reached after the rest of the tree was written): it must
+        # raise and must not cost any checkpoint that was saved before --
+        # in particular not the one of the same round when a round is re-saved.
+        doomed = {'a_state': build(s['state']), 'z_unpicklable': _Unpicklable()}
+        try:
+          checkpoint.save_checkpoint(root, doomed, s['round'], s['keep'])
+        except _PickleRefused:
+          pass
+        else:
+          raise Violation('checkpoint:unpicklable_state_saved_silently',
+                          f'round {s["round"]}')
+        notes.append('failed_save')
+        if s['round'] in model:
+          notes.append('failed_resave_of_existing_round')
+        latest = checkpoint.load_latest_checkpoint(root)
+        if not model:
+          require(latest is None, 'checkpoint:loaded_after_only_failed_saves',
+                  lambda: f'{os.listdir(root)}')
+          continue
+        want_round = max(model)
+        require(latest is not None, 'checkpoint:earlier_checkpoint_lost_by_failed_save',
+                lambda: f'failed save of round {s["round"]}; saved before: '
+                        f'{sorted(model)}; directory {sorted(os.listdir(root))}')
+        state, round_num = latest
+        require(round_num == want_round, 'checkpoint:earlier_checkpoint_lost_by_failed_save',
+                lambda: f'failed save of round {s["round"]}: latest is round {round_num}, '
+                        f'saved before: {sorted(model)}; directory {sorted(os.listdir(root))}')
+        compare(expected(model[want_round]), describe(state),
+                ['load_latest_checkpoint', 'after_failed_save'], notes)
+        continue
       checkpoint.save_checkpoint(root, build(s['state']), s['round'], s['keep'])
+      model[s['round']] = s['state']
+      for old in sorted(model)[:-s['keep']]:
+        del model[old]
       latest = checkpoint.load_latest_checkpoint(root)
       require(latest is not None, 'checkpoint:nothing_to_load',
               lambda: f'after save of round {s["round"]}: {os.listdir(root)}')
@@ -716,6 +752,16 @@ def run_state(case):
       compare(expected(s['state']), describe(state),
               ['load_latest_checkpoint'], notes)
   return sorted(set(notes))
+
+
+class _PickleRefused(Exception):
+  pass
+
+
+class _Unpicklable:
+
+  def __reduce__(self):
+    raise _PickleRefused('this leaf cannot be pickled')
 
 
 # -------------------------------------------------------------- strategies
@@ -1088,13 +1134,18 @@ def state_tree(tier):
 @st.composite
 def state_cases(draw, tier):
   tree = state_tree(tier)
-  n = draw(st.sampled_from([1, 1, 2, 3]))
+  n = draw(st.sampled_from([1, 1, 2, 3, 4]))
   rounds = sorted(draw(st.lists(
-      st.one_of(st.integers(0, 12), st.integers(0, 10**8 - 1),
+      st.one_of(st.integers(0, 12), st.integers(0, 3), st.integers(0, 10**8 - 1),
                 st.sampled_from([0, 9, 10, 99999999, 10**7])),
       min_size=n, max_size=n)))
-  return {'saves': [{'round': r, 'keep': draw(st.integers(1, 3)),
-                     'state': draw(tree)} for r in rounds],
+  saves = [{'round': r, 'keep': draw(st.integers(1, 3)),
+            'state': draw(tree)} for r in rounds]
+  # some saves (never the first) die half-way through pickling
+  for sv in saves[1:]:
+    if draw(st.integers(0, 3)) == 0:
+      sv['fail'] = True
+  return {'saves': saves,
           'dirname': draw(st.sampled_from(
               ['ckpt', 'ckpt', 'exp.1', 'a+b', 'sweep[lr=0.1]', 'run(2)', 'x^y$',
                'q?*', 'sp ace', 'checkpoint_00000007']))}
